@@ -25,7 +25,8 @@ class M4(plug.Model):
         return m4_queue.shape(sc)
 
     def header(self, sc):
-        return "max=%d allow=%d prefill=%s" % (sc["max"], 1 if sc["allow"] else 0, ",".join(str(v) for v in sc["prefill"]))
+        return "max=%d allow=%d silent=%d prefill=%s" % (sc["max"], 1 if sc["allow"] else 0, 1 if sc.get("silent", True) else 0,
+                                                        ",".join(str(v) for v in sc["prefill"]))
 
     def est_steps(self, sc):
         return 80 * len(sc["threads"])
@@ -64,10 +65,12 @@ def trusted_base(prop):
         "a Queue method (with the value read), every deque mutation, parking and the value lock.wait() returned, every result",
         "layering: the Lock's notification discipline is abstracted to an arbitrary `signal t` environment move (safety does not "
         "depend on it; no-lost-notification is C06 on M3); the real Lock/Signal/OrSignal/Till run underneath",
-        "modelled, not verified: collections.deque operations, `with` semantics, mo_logs.logger.error raising",
+        "modelled, not verified: collections.deque operations, `with` semantics, mo_logs.logger.error raising, the 5 s stall Till "
+        "(replaced by an environment-fired signal) and logger.alert (stub) of queues that are not silent",
     ]
 
 
 def assumptions(prop):
-    return ["silent=True, unique=False queues in the lock-step scenarios (non-silent mode only adds periodic wake-ups and an alert)",
+    return ["unique=False queues; silent and non-silent queues (a queue that is not silent parks its producers on a fresh 5 s stall timer "
+            "each turn: a signal fired by the environment thread once the producer is parked on it; logger.alert is stubbed)",
             "values are distinct naturals; PLEASE_STOP is only sent through add(PLEASE_STOP)/close()"]
